@@ -873,3 +873,11 @@ mod test {
         }
     }
 }
+
+/// Verification hook, compiled only for `cargo test --features verif-hook`.
+/// Includes the harness file named by the `SYLVIA_VERIF_HARNESS` environment variable
+/// so that it can call the crate-private expansion functions in-process.
+#[cfg(all(test, feature = "verif-hook"))]
+mod verif_hook {
+    include!(env!("SYLVIA_VERIF_HARNESS"));
+}
